@@ -124,9 +124,30 @@ def rule_validator(ctx, prog, eff):
     b = prog.one(adt=MM, name="from_arc_regions")
     seen = {"NoMemoryRegion": False, "UnsortedMemoryRegions": False, "MemoryRegionOverlap": False, "Ok": False}
     W0 = lambda v: ALT(C("Deref::deref", v), v)
-    for pos, t in b.return_terms():
+    RAW = lambda p: ALT(p, F(p, "0"))          # a GuestAddress or its raw value (a derived / field-wise Ord compares the field)
+    # neighbours may also be visited as `regions.iter().zip(regions.iter().skip(1)).try_for_each(|(prev, next)| ..)?`: the checks then
+    # sit in the closure, on (arg.0, arg.1), and the walk is exhausted when try_for_each continues
+    ZIP = C("Iterator::zip", C("slice::iter", W0(P(1))), C("Iterator::skip", C("slice::iter", W0(P(1))), K(1)))
+    pair_closures = {}
+    for c_ in b.calls():
+        if canon(c_.target or "").endswith("Iterator::try_for_each"):
+            tt = deep_strip(b.call_term(c_.t, c_.pos, 0))
+            e_ = {}
+            if match(C("Iterator::try_for_each", ZIP, CLO("f")), tt, e_):
+                cb_ = prog.by_id.get(str(e_["f"][1]))
+                if cb_ is not None:
+                    pair_closures[cb_.id] = (cb_, tt)
+
+    def neighbours(body, a, c):
+        if body.id in pair_closures:
+            return match(F(P(2), "0"), a, {}) and match(F(P(2), "1"), c, {})
+        return a[0] == 'index' and c[0] == 'index' and a[1] == c[1] and a[2] == ('const', 0) and c[2] == ('const', 1)
+    sites = [(b, pos, t) for pos, t in b.return_terms()]
+    for cb_, _tt in pair_closures.values():
+        sites += [(cb_, pos, t) for pos, t in cb_.return_terms() if deep_strip(t)[0] == 'agg' and deep_strip(t)[2] == 'Err']
+    for sb, pos, t in sites:
         t = deep_strip(t)
-        facts = b.facts_at(pos)
+        facts = sb.facts_at(pos)
         if t[0] == 'agg' and t[2] == 'Err':
             var = unref(t[3][0])[2]
             if var == "NoMemoryRegion":
@@ -137,18 +158,18 @@ def rule_validator(ctx, prog, eff):
                 ok = False
                 for r in facts:
                     e = {}
-                    if r[0] == 'cmp' and r[1] == 'Gt' and match(C("GuestMemoryRegion::start_addr", W0(V("a"))), r[2], e) and match(C("GuestMemoryRegion::start_addr", W0(V("c"))), r[3], e):
+                    if r[0] == 'cmp' and r[1] == 'Gt' and match(RAW(C("GuestMemoryRegion::start_addr", W0(V("a")))), r[2], e) and match(RAW(C("GuestMemoryRegion::start_addr", W0(V("c")))), r[3], e):
                         a, c = e["a"], e["c"]
-                        ok = a[0] == 'index' and c[0] == 'index' and a[1] == c[1] and a[2] == ('const', 0) and c[2] == ('const', 1)
+                        ok = ok or neighbours(sb, a, c)
                 seen[var] = True
                 ctx.ob("R10.2.sorted", b.key, ok, b.where(), "Err(UnsortedMemoryRegions) iff prev.start_addr() > next.start_addr() (window[0] vs window[1], strict)")
             elif var == "MemoryRegionOverlap":
                 ok = False
                 for r in facts:
                     e = {}
-                    if r[0] == 'cmp' and r[1] == 'Ge' and match(C("GuestMemoryRegion::last_addr", W0(V("a"))), r[2], e) and match(C("GuestMemoryRegion::start_addr", W0(V("c"))), r[3], e):
+                    if r[0] == 'cmp' and r[1] == 'Ge' and match(RAW(C("GuestMemoryRegion::last_addr", W0(V("a")))), r[2], e) and match(RAW(C("GuestMemoryRegion::start_addr", W0(V("c")))), r[3], e):
                         a, c = e["a"], e["c"]
-                        ok = a[0] == 'index' and c[0] == 'index' and a[1] == c[1] and a[2] == ('const', 0) and c[2] == ('const', 1)
+                        ok = ok or neighbours(sb, a, c)
                 seen[var] = True
                 ctx.ob("R10.2.overlap", b.key, ok, b.where(), "Err(MemoryRegionOverlap) iff prev.last_addr() >= next.start_addr() (inclusive LAST vs POS: a 1-byte overlap is caught, adjacency is allowed)")
             else:
@@ -158,6 +179,8 @@ def rule_validator(ctx, prog, eff):
             ne = any(r[0] == 'bool' and r[2] is False and match(ALT(C("Vec::is_empty", P(1)), C("slice::is_empty", ALT(C("Deref::deref", P(1)), P(1)))), r[1], {}) for r in facts)
             # the loop over windows(2) was exhausted: next() returned None
             done = any(r[0] == 'discr' and r[2] == 0 and match(C("Iterator::next", C("IntoIterator::into_iter", C("slice::windows", C("Deref::deref", P(1)), K(2)))), r[1], {}) for r in facts)
+            # .. or try_for_each over the neighbouring pairs ran to the end (its `?` continued)
+            done = done or any(r[0] == 'discr' and r[2] == 0 and any(unref(r[1]) == tt_ for _cb, tt_ in pair_closures.values()) for r in facts)
             same = v[0] == 'agg' and v[1] == MM and unref(v[3][0])[:2] == ('param', 1)
             seen["Ok"] = True
             ctx.ob("R10.1.validated_construction", b.key, ne and done and same, b.where(),
